@@ -188,6 +188,11 @@ func (r *Rows) Columns() []string {
 func (r *Rows) Next(dest []driver.Value) error {
 	row, ok := <-r.rows
 	if !ok {
+		if r.err == io.EOF {
+			// a page beyond the end of a truncated file. database/sql reads
+			// io.EOF as "no more rows": rows.Err() would be nil
+			return io.ErrUnexpectedEOF
+		}
 		if r.err != nil {
 			return r.err
 		}
